@@ -20,6 +20,7 @@ var caseSeq atomic.Int64
 func workDir() string {
 	d := filepath.Join(core.Scratch(), fmt.Sprintf("w%d", os.Getpid()), fmt.Sprintf("c%d", caseSeq.Add(1)))
 	os.MkdirAll(d, 0o755)
+	core.Heartbeat() // a new scratch directory = a new session of the current case: progress
 	return d
 }
 
